@@ -200,3 +200,16 @@ func init() {
 		Stages: []Stage{{Name: "timed", Pkg: "./mon/c07", Procs: 4, Batches: [2]int{1, 2}, TimeoutS: [2]int{300, 900}}},
 	}
 }
+
+func init() {
+	properties["C09"] = Property{
+		Level: "exploration",
+		Rule:  "one case = one step of a history over a forest of 3-6 locations (through a SimpleLocationProvider of core.Locations and through sys.System, both states): facts, rules, removals, EnableRule flags for inherited rules and SetParents (chains, fans, two parents, diamonds); after the step the own view (get, non-inherited search) and the inherited view (inherited search as a multiset, inherited rule list, dispatch of 2 probe events) of EVERY location are compared with the model; plus 16 loop cases (self, length 2, length 3, loop not through the start) in their own child; non-trivial = the forest has >=1 parent edge; distinct by canonical JSON of (entry point, state, history prefix)",
+		Floor: [2]int{200, 2000},
+		Assumptions: []string{"lib/ref.Loc + lib/ref.Match per location; expected inherited result = union over the transitive parents, each fact once", "rule ids are unique across locations (the same id in child and parent is the documented duplicate-id error, exercised in C10)"},
+		Stages: []Stage{
+			{Name: "forest", Pkg: "./mon/c09", Procs: 2, Batches: [2]int{6, 12}, TimeoutS: [2]int{900, 3600}},
+			{Name: "loops", Pkg: "./mon/c09", Procs: 2, Batches: [2]int{1, 1}, TimeoutS: [2]int{300, 600}, HangIsViolation: true},
+		},
+	}
+}
